@@ -2,7 +2,9 @@ import N0Verif.Py.Basic
 import N0Verif.Val
 /-!
   The structural compare engine of py552/n0struct (C07–C10), modelled for the code
-  **with the fix patches C07-a, C08-a, C09-a applied**:
+  **with the fix patches C07-a, C08-a, C09-a and C07-b, C07-c, C09-b, C10-a applied**
+  (the key of a list item that is not a record is `json.dumps(transformed item, sort_keys=True, default=repr)`;
+  a type clash inside a keyed list carries `[i]<>[j]`):
 
   * flag machine                      `n0struct_utils_compare.py` 4-102
   * `xpath_match`                     `n0struct_utils_compare.py` 108-136
@@ -116,6 +118,72 @@ end
 def pyStr : Val → Str
   | .str s => s
   | v => reprVal v
+
+/-! ### `json.dumps(v, sort_keys=True, default=repr)` (the key of non-record list items) -/
+
+def hex4 (n : Nat) : List Char :=
+  [Proto.hexDigit (n / 4096 % 16), Proto.hexDigit (n / 256 % 16), Proto.hexDigit (n / 16 % 16), Proto.hexDigit (n % 16)]
+
+/-- one character inside a JSON string literal (`ensure_ascii=True`: everything outside `' '..'~'` is escaped,
+code points beyond the BMP as a surrogate pair) -/
+def jsonChar (c : Char) : List Char :=
+  if c = '"' then ['\\', '"']
+  else if c = '\\' then ['\\', '\\']
+  else if c = '\n' then ['\\', 'n']
+  else if c = '\r' then ['\\', 'r']
+  else if c = '\t' then ['\\', 't']
+  else if c.toNat = 8 then ['\\', 'b']
+  else if c.toNat = 12 then ['\\', 'f']
+  else if 32 ≤ c.toNat ∧ c.toNat ≤ 126 then [c]
+  else if c.toNat < 65536 then '\\' :: 'u' :: hex4 c.toNat
+  else '\\' :: 'u' :: hex4 (55296 + (c.toNat - 65536) / 1024) ++ '\\' :: 'u' :: hex4 (56320 + (c.toNat - 65536) % 1024)
+
+/-- `json.dumps(s)` for a `str` -/
+def jsonStr (s : Str) : Str := '"' :: (s.flatMap jsonChar) ++ ['"']
+
+/-- `a <= b` for `str` (code points, lexicographic) -/
+def strLe : Str → Str → Bool
+  | [], _ => true
+  | _ :: _, [] => false
+  | a :: as, b :: bs => if a.toNat < b.toNat then true else if b.toNat < a.toNat then false else strLe as bs
+
+/-- stable insertion by key (`sorted(dct.items())`; keys of a dictionary are unique) -/
+def insertMember (kv : Str × Str) : List (Str × Str) → List (Str × Str)
+  | [] => [kv]
+  | kv' :: rest => if strLe kv.1 kv'.1 then kv :: kv' :: rest else kv' :: insertMember kv rest
+
+def sortMembers : List (Str × Str) → List (Str × Str)
+  | [] => []
+  | kv :: rest => insertMember kv (sortMembers rest)
+
+/-- `", ".join(items)` -/
+def joinItems : List Str → Str
+  | [] => []
+  | [x] => x
+  | x :: y :: xs => x ++ [',', ' '] ++ joinItems (y :: xs)
+
+/-- one member `"key": text` -/
+def memberText (kv : Str × Str) : Str := jsonStr kv.1 ++ [':', ' '] ++ kv.2
+
+mutual
+/-- `json.dumps(v, sort_keys=True, default=repr)`: the members of a dictionary are written in the order of
+their keys; floats are their lexeme -/
+def jsonVal : Val → Str
+  | .none => ['n', 'u', 'l', 'l']
+  | .bool true => ['t', 'r', 'u', 'e']
+  | .bool false => ['f', 'a', 'l', 's', 'e']
+  | .int i => intStr i
+  | .flt r => r
+  | .str s => jsonStr s
+  | .list _ xs => '[' :: joinItems (jsonList xs) ++ [']']
+  | .dict _ kvs => '{' :: joinItems ((sortMembers (jsonKvs kvs)).map memberText) ++ ['}']
+def jsonList : List Val → List Str
+  | [] => []
+  | x :: xs => jsonVal x :: jsonList xs
+def jsonKvs : List (Str × Val) → List (Str × Str)
+  | [] => []
+  | (k, x) :: rest => (k, jsonVal x) :: jsonKvs rest
+end
 
 /-! ### paths -/
 
@@ -356,9 +424,11 @@ def recordKey (cfg : Cfg) (p : Path) (kvs : List (Str × Val)) : List Str → St
           | .str s => recordKey cfg p kvs rest (acc ++ key ++ ['='] ++ s)
           | _ => .error .TypeError       -- `str + non-str`
 
+/-- the key of one list item: a record is keyed by its composite-key fields; any other item by the JSON text
+of the item transformed with the function registered for the path of the list -/
 def keyOf (cfg : Cfg) (p : Path) : Val → Except PyErr Str
   | .dict _ kvs => if cfg.ck.pats.isEmpty then .ok [] else recordKey cfg p kvs cfg.ck.pats []
-  | v => .ok (pyStr v)
+  | v => .ok (jsonVal (transformAt cfg p v))
 
 def keysOf (cfg : Cfg) (p : Path) : List Val → Except PyErr (List Str)
   | [] => .ok []
@@ -490,7 +560,7 @@ def keyedWalk (cfg : Cfg) (p : Path) (selfAll otherAll : Val) (i : Nat)
     | none => keyedWalk cfg p selfAll otherAll (i + 1) xs ks sr orr
     | some (j, y) =>
       let seg : PSeg := if i = j then .idx i else .idx2 i j
-      match classifyItem cfg p (p ++ [seg]) (p ++ [.idx i]) selfAll otherAll x y with
+      match classifyItem cfg p (p ++ [seg]) (p ++ [seg]) selfAll otherAll x y with
       | .emit r _ =>
         match keyedWalk cfg p selfAll otherAll (i + 1) xs ks (eraseKey k sr) (eraseKey k orr) with
         | .error e => .error e
